@@ -336,14 +336,116 @@ func (u *Unit) declareSpecPrelude() {
 	}
 }
 
-// axioms are evaluated lazily (they may mention ghost functions only).
+// axiomTerms: the prelude axioms relevant to this unit.  An axiom is included
+// when it mentions a ghost function that occurs in some obligation or cover of
+// the unit (or in an axiom already included): axioms about symbols the unit never
+// uses cannot help a proof and only add quantifier noise.
 func (u *Unit) axiomTerms(st *State) []T {
+	db := u.eng.spec
+	used := map[string]bool{}
+	occurs := func(name string) bool {
+		pat := "(" + name + " "
+		for _, o := range u.obligs {
+			if strings.Contains(o.Goal.S, pat) {
+				return true
+			}
+			for _, a := range o.Assume {
+				if strings.Contains(a.S, pat) {
+					return true
+				}
+			}
+		}
+		for _, o := range u.covers {
+			for _, a := range o.Assume {
+				if strings.Contains(a.S, pat) {
+					return true
+				}
+			}
+		}
+		if strings.Contains(u.decls.Text(), pat) {
+			// definitional assertions kept with the declarations (array comprehensions, ...)
+			return true
+		}
+		return false
+	}
+	names := sortedKeys(db.Ghosts)
+	for gh := range db.GhostHeaps {
+		names = append(names, gh)
+	}
+	for _, n := range names {
+		if _, isHeap := db.GhostHeaps[n]; isHeap {
+			for _, o := range u.obligs {
+				if strings.Contains(o.Goal.S, "G!"+n) {
+					used[n] = true
+				}
+				for _, a := range o.Assume {
+					if strings.Contains(a.S, "G!"+n) {
+						used[n] = true
+					}
+				}
+			}
+			continue
+		}
+		if occurs(n) {
+			used[n] = true
+		}
+	}
+	mentions := func(text, name string) bool {
+		i := 0
+		for {
+			j := strings.Index(text[i:], name)
+			if j < 0 {
+				return false
+			}
+			j += i
+			before := j == 0 || !isIdentChar(text[j-1])
+			after := j+len(name) >= len(text) || !isIdentChar(text[j+len(name)])
+			if before && after {
+				return true
+			}
+			i = j + len(name)
+		}
+	}
+	include := make([]bool, len(db.Axioms))
+	for changed := true; changed; {
+		changed = false
+		for i, a := range db.Axioms {
+			if include[i] {
+				continue
+			}
+			hit, any := false, false
+			for _, n := range names {
+				if mentions(a.Text, n) {
+					any = true
+					if used[n] {
+						hit = true
+					}
+				}
+			}
+			if hit || !any {
+				include[i] = true
+				changed = true
+				for _, n := range names {
+					if mentions(a.Text, n) {
+						used[n] = true
+					}
+				}
+			}
+		}
+	}
 	var out []T
-	for _, a := range u.eng.spec.Axioms {
+	for i, a := range db.Axioms {
+		if !include[i] {
+			continue
+		}
 		env := u.newEnv(st)
 		out = append(out, u.evalBool(env, a.Expr))
 	}
 	return out
+}
+
+func isIdentChar(c byte) bool {
+	return c == '_' || c >= '0' && c <= '9' || c >= 'a' && c <= 'z' || c >= 'A' && c <= 'Z'
 }
 
 func (u *Unit) checkExit(o Outcome, fs *FuncSpec, params map[string]SV) {
@@ -373,6 +475,7 @@ func (u *Unit) checkExit(o Outcome, fs *FuncSpec, params map[string]SV) {
 		}
 	} else {
 		u.addCover(st, "exit", "exit", "a normal return of the function is reachable")
+		u.checkCreatedInvariants(st, "created", exitInstr, 0)
 		rs := fn.Signature.Results()
 		for i := 0; i < rs.Len() && i < len(o.results); i++ {
 			sv := SV{V: o.results[i], Typ: rs.At(i).Type()}
